@@ -853,7 +853,7 @@ def decompose_matrix(matrix):
         np.negative(row, row)
 
     angles[1] = np.arcsin(-row[0, 2])
-    if np.cos(angles[1]):
+    if abs(np.cos(angles[1])) > _EPS:
         angles[0] = np.arctan2(row[1, 2], row[2, 2])
         angles[2] = np.arctan2(row[0, 1], row[0, 0])
     else:
